@@ -257,6 +257,15 @@ func NewEnvAt(in string, before []int) *Env {
 	return &Env{File: f, FS: fs, Ctx: parsley.NewContext(fs, rd), Base: int(f.Pos(0))}
 }
 
+// NewEnvIn adds the file to a file set that already holds the inputs of earlier parses (a document set: one file set,
+// one file and one context per input)
+func NewEnvIn(fs *parsley.FileSet, in string) *Env {
+	f := text.NewFile("f", []byte(in))
+	fs.AddFile(f)
+	rd := text.NewReader(f)
+	return &Env{File: f, FS: fs, Ctx: parsley.NewContext(fs, rd), Base: int(f.Pos(0))}
+}
+
 // ---------------------------------------------------------------------------
 // canonical rendering from public accessors only
 
